@@ -297,6 +297,7 @@ func (e *Engine) isMatchDigitPrefilter(haystack []byte) bool {
 	state := e.getSearchState()
 	defer e.putSearchState(state)
 
+	failedCandidates := 0
 	for pos < len(haystack) {
 		digitPos := e.digitPrefilter.Find(haystack, pos)
 		if digitPos < 0 {
@@ -319,6 +320,11 @@ func (e *Engine) isMatchDigitPrefilter(haystack []byte) bool {
 			}
 		}
 
+		// Anti-quadratic bound (see digitCandidateBudget)
+		if failedCandidates++; failedCandidates > digitCandidateBudget {
+			_, _, found := state.pikevm.SearchAt(haystack, digitPos+1)
+			return found
+		}
 		pos = digitPos + 1
 		// Skip entire digit run when safe (same optimization as findIndicesDigitPrefilter)
 		if e.digitRunSkipSafe {
